@@ -125,6 +125,32 @@ def check_C06(ctx, rep):
     if t2 is not None:
         sw = vg.map_tree(t2, lambda x: subst(x, {0: P(1), 1: P(0)}))
         expect_equiv(rep, "R12c", "f64 <=> TwoFloat (mirror)", "cmp-f64-mirror", D.expand_ordering_leaves(sw, flip=True), ref, b2, "reverse of TwoFloat <=> f64")
+    # R12o overridden comparison operators agree with partial_cmp / eq (none in the crate today: PartialOrd's
+    # provided lt/le/gt/ge and PartialEq's ne are used; an override is an independent entry point)
+    n_over = 0
+    for lt_, rt_ in ((TF, TF), (TF, "f64"), ("f64", TF)):
+        pc = "<%s as core::cmp::PartialOrd<%s>>::partial_cmp" % (lt_, rt_)
+        for meth in ("lt", "le", "gt", "ge"):
+            ident = "<%s as core::cmp::PartialOrd<%s>>::%s" % (lt_, rt_, meth)
+            if f.get(ident) is None:
+                continue
+            n_over += 1
+            tp, bp = get_tree(rep, f, "R12o", pc)
+            tm, bm = get_tree(rep, f, "R12o", ident, inline_extra=(pc,))
+            if tp is None or tm is None:
+                continue
+            derived = D.map_leaves(D.expand_ordering_leaves(tp), lambda l: RET(TRUE if l[1] in D.OPS[meth] else FALSE) if l[0] == "ord" else l)
+            expect_equiv(rep, "R12o", ident, "override:" + ident, D.expand_bool_leaves(tm), derived, bm, "%s(a, b) == matches!(partial_cmp(a, b), %s)" % (meth, sorted(D.OPS[meth])))
+        eqi = "<%s as core::cmp::PartialEq<%s>>::eq" % (lt_, rt_)
+        nei = "<%s as core::cmp::PartialEq<%s>>::ne" % (lt_, rt_)
+        if f.get(nei) is not None:
+            n_over += 1
+            te, be = get_tree(rep, f, "R12o", eqi)
+            tn, bn = get_tree(rep, f, "R12o", nei, inline_extra=(eqi,))
+            if te is not None and tn is not None:
+                neg = D.map_leaves(D.expand_bool_leaves(te), lambda l: RET(FALSE if l[1] is TRUE else TRUE) if l[0] == "leaf" and l[1] in (TRUE, FALSE) else l)
+                expect_equiv(rep, "R12o", nei, "override:" + nei, D.expand_bool_leaves(tn), neg, bn, "ne(a, b) == !eq(a, b)")
+    rep.check(True, "R12o", "comparison operator overrides", "x", "", detail="%d overridden lt/le/gt/ge/ne bodies compared with partial_cmp / eq" % n_over, nontrivial=False)
     # R12v the link used by the comparison theory: a value with a NaN word is not valid
     t, body = get_tree(rep, f, "R12v", "TwoFloat::is_valid")
     if t is not None:
